@@ -54,12 +54,36 @@ pub fn generic(case: &Case) -> Vec<Case> {
             }
         }
     }
-    // 2. drop single appends / flushes / raw ops
-    for (i, o) in ops.iter().enumerate() {
-        if matches!(o, WOp::Append { .. } | WOp::Flush | WOp::AppendRaw { .. } | WOp::EndRaw { .. }) {
-            let mut c = case.clone();
-            c.ops.remove(i);
-            out.push(c);
+    // 2. drop appends / flushes / raw ops: whole ranges first when the history is long (halves, quarters, ... -
+    // a candidate is a full copy of the case, so their number stays bounded), single ops when it is short
+    let droppable = |o: &WOp| matches!(o, WOp::Append { .. } | WOp::Flush | WOp::AppendRaw { .. } | WOp::EndRaw { .. });
+    if ops.len() > 64 {
+        let mut width = ops.len() / 2;
+        while width >= 16 && out.len() < 48 {
+            let mut start = 0;
+            while start < ops.len() && out.len() < 48 {
+                let end = (start + width).min(ops.len());
+                if ops[start..end].iter().any(droppable) {
+                    let mut c = case.clone();
+                    let mut k = 0;
+                    c.ops.retain(|o| {
+                        let inside = k >= start && k < end;
+                        k += 1;
+                        !(inside && droppable(o))
+                    });
+                    out.push(c);
+                }
+                start = end;
+            }
+            width /= 2;
+        }
+    } else {
+        for (i, o) in ops.iter().enumerate() {
+            if droppable(o) {
+                let mut c = case.clone();
+                c.ops.remove(i);
+                out.push(c);
+            }
         }
     }
     // 3. read / layer histories
@@ -133,8 +157,8 @@ pub fn generic(case: &Case) -> Vec<Case> {
         c.cfg.level = 0;
         out.push(c);
     }
-    // 7. data
-    for (i, o) in ops.iter().enumerate() {
+    // 7. data (of the first pieces only when there are very many)
+    for (i, o) in ops.iter().enumerate().take(200) {
         if let WOp::Append { data, .. } | WOp::Add { data, .. } | WOp::AppendRaw { data, .. } = o {
             for d in shrink_data(data) {
                 let mut c = case.clone();
